@@ -36,7 +36,7 @@ def graph_replay(sim_bin, work, tag, constants, walks, seed, tlc_workers=4, walk
                 "INVARIANTS TypeOK NoPanic CommittedIsLeaders AppliedIsLeaders AckIsDurable AckedNotLost Quiescent\n"
                 "PROPERTIES ReadyImmutable\nVIEW View\nACTION_CONSTRAINT Emit\nCHECK_DEADLOCK FALSE\n" % (constants["MaxTerm"], constants["Families"]))
     t0 = time.time()
-    tlc = subprocess.Popen(_tlc_cmd(wd, cfg, tlc_workers, "6g"), cwd=wd, env=common.env(), stdout=subprocess.PIPE, stderr=subprocess.STDOUT)
+    tlc = subprocess.Popen(_tlc_cmd(wd, cfg, tlc_workers, "4g"), cwd=wd, env=common.env(), stdout=subprocess.PIPE, stderr=subprocess.STDOUT)
     walker = subprocess.Popen([sim_bin, "window", "-workers", str(walk_workers), "-walks", str(walks), "-depth", "40", "-seed", str(seed)],
                               stdin=subprocess.PIPE, stdout=subprocess.PIPE, stderr=subprocess.PIPE)
     wout = []
@@ -104,7 +104,7 @@ def model_only(work, tag, constants, workers=8, timeout=1500, expect_violation=F
                 "INVARIANTS TypeOK NoPanic CommittedIsLeaders AppliedIsLeaders AckIsDurable AckedNotLost Quiescent\n%s"
                 "VIEW View\nCHECK_DEADLOCK FALSE\n" % (constants["MaxTerm"], "TRUE" if constants.get("Alias") else "FALSE", constants["Families"],
                                                        "" if constants.get("NoProps") else "PROPERTIES ReadyImmutable\n"))
-    pr = subprocess.run(_tlc_cmd(wd, cfg, workers, "10g"), cwd=wd, env=common.env(), stdout=subprocess.PIPE, stderr=subprocess.STDOUT,
+    pr = subprocess.run(_tlc_cmd(wd, cfg, workers, "8g"), cwd=wd, env=common.env(), stdout=subprocess.PIPE, stderr=subprocess.STDOUT,
                         text=True, timeout=timeout)
     m = None
     for m in common._RE_STATES.finditer(pr.stdout):
@@ -134,13 +134,18 @@ def classify(fails):
 def run(sim_bin, work, tier, seed, pool):
     """Submit the tier's instances to `pool`; returns a function that collects the results."""
     quick = tier == "quick"
+    if not quick:
+        # the three-leader instances are large (333 k states, 10 M transitions each, a JVM plus a walker holding the graph):
+        # two at a time, next to the rest of the thorough tier (all of them at once was killed by the kernel for memory)
+        import concurrent.futures as _cf
+        pool = _cf.ThreadPoolExecutor(max_workers=2)
     jobs = []
     if quick:
         jobs.append(pool.submit(graph_replay, sim_bin, work, "two", {"MaxTerm": 2, "Families": "QuickTwo"}, 3000, seed, 4, 6))
     else:
         for k in (1, 2, 3, 4):
-            jobs.append(pool.submit(graph_replay, sim_bin, work, "three%d" % k, {"MaxTerm": 3, "Families": "Only%d" % k}, 20000, seed * 10 + k, 3, 4, 3300))
-        jobs.append(pool.submit(graph_replay, sim_bin, work, "two", {"MaxTerm": 2, "Families": "TwoLeaders"}, 20000, seed, 3, 4))
+            jobs.append(pool.submit(graph_replay, sim_bin, work, "three%d" % k, {"MaxTerm": 3, "Families": "Only%d" % k}, 20000, seed * 10 + k, 4, 6, 3300))
+        jobs.append(pool.submit(graph_replay, sim_bin, work, "two", {"MaxTerm": 2, "Families": "TwoLeaders"}, 20000, seed, 4, 6))
     mo = []
     if not quick:
         mo.append(pool.submit(model_only, work, "all3", {"MaxTerm": 3, "Families": "AllFamilies3"}, 8, 2400))
